@@ -99,9 +99,10 @@ PROPS = {
         "text": "Deductive proof that renew_delay, random_early_renew, file_name_format and the storage directory resolve to the most "
                 "specific value given (certificate, endpoint, global, default 30d/0/build-time format), that unresolved endpoint, rate-limit, "
                 "hook and group references are errors, that each configuration file is opened at most once (include recursion terminates), "
-                "lists of included files are appended and each of the 15 global options takes the later file's value.",
+                "lists of included files are appended and each of the 15 global options takes the later file's value; that an absolute include is taken as it is and a relative one is "
+                "resolved against the directory of the including file; that the names of key types, algorithms and contact types are read whatever their case.",
         "assumptions": [
-            "T: canonicalize returns a path from a finite universe of configuration files; toml/serde deserialisation; glob expansion (get_cnf_path is a stub)",
+            "T: canonicalize returns a path from a finite universe of configuration files; toml/serde deserialisation; PathBuf::{pop, push, to_str}, glob and Pattern::escape as documented (pushing an absolute path replaces the path; a configuration file directly under `/` is left out)",
             "T: derive(Clone)/derive(Default) of the config structs mean structural copy / empty lists (restated as trusted specs)",
             "T: parse_duration is the uninterpreted pd_spec here (its own contract is proved in unit duration)",
             "X: global env dispatch to certificates (dispatch_global_env_vars: HashMap iteration)",
@@ -128,9 +129,9 @@ PROPS = {
         "text": "Deductive proof that the certificate tacd serves is X.509 v3, self-issued and self-signed by the generated key, valid from now for "
                 "7 days, with basicConstraints, exactly one subjectAltName dNSName (the given domain) and the acmeIdentifier extension taken from "
                 "name=value text with exactly one '=' (anything else is an error), nothing else; and that the ALPN callback answers acme-tls/1 "
-                "when and only when the client offers it, with a fatal alert otherwise.",
+                "when and only when the client offers it, with a fatal alert otherwise; that the TLS profile accepts TLS 1.2 and TLS 1.3 clients.",
         "assumptions": [
-            "T: OpenSSL encodes what the builder calls describe (extension text `critical,DER:..` as written); select_next_proto as documented; the TLS stack",
+            "T: the Mozilla profiles of the openssl crate accept the protocol versions stated in prelude/tacd_shims.rs (intermediate: from TLS 1.0, intermediate_v5 / modern: from 1.2, modern_v5: 1.3 only); OpenSSL encodes what the builder calls describe (extension text `critical,DER:..` as written); select_next_proto as documented; the TLS stack",
             "T: str::split semantics as stated in prelude/vmap.rs",
             "T: clap::ArgMatches as a map from option names to values, the input sources (file / stdin) as uninterpreted lines (prelude/tacdmain_shims.rs); tacd main.rs::init and get_acme_value are verified: the served certificate is for the A-label form of the requested domain",
             "X: the handshake as a client sees it; "
@@ -142,10 +143,11 @@ PROPS = {
         "design_ref": "DESIGN.md section 5 C17",
         "technique": "Verus safety obligations on the per-connection closure and accept loop (macro-expanded), spawn requires the closure to be total",
         "text": "Deductive proof that the per-connection thread body and the accept loop of tacd have no failing unwrap/index/"
-                "arithmetic obligation for any outcome of accept() and any sequence of incoming connections (Err streams are skipped).",
+                "arithmetic obligation for any outcome of accept() and any sequence of incoming connections (Err streams are skipped); that the accept loop never ends on an error of one connection or one failed accept, "
+                "and never waits for a connection thread that is not known to have finished.",
         "assumptions": [
             "T: SslAcceptor::accept may return Err for any reason (no assumption on the peer); threads spawn; OpenSSL does not abort internally",
-            "T: listener.incoming() is modelled as an arbitrary finite sequence (every finite prefix of the endless iterator)",
+            "T: listener.incoming() is modelled as an arbitrary finite sequence (every finite prefix of the endless iterator); iterator adapters on it as stated in prelude/tacd_shims.rs; a connection thread ends when its peer lets it (JoinHandle::join needs is_finished)",
             "X: resource exhaustion by stalled connections; the build profile (release, panic=abort) is read from Cargo.toml, not proved",
         ],
     },
@@ -226,11 +228,13 @@ PROPS = {
         "technique": "Verus function contracts over ghost counters (requests, post-operation runs, time slept since the last request)",
         "text": "Deductive proof that one task step performs exactly one request and exactly one post-operation hook run, reports success iff "
                 "the request succeeded (with the prefixed error text otherwise), swallows a post-operation hook error, sleeps at least a second "
-                "after a failure before handing the task back, and that the scheduling-retry loop stays in bounds and terminates.",
+                "after a failure before handing the task back, and that the scheduling-retry loop stays in bounds and terminates; "
+                "that every request is given up after a bounded number of transmissions and every poll after a bounded number of requests, and that the time the HTTP layer "
+                "spends waiting between them is bounded by the retry / poll constants whatever the server answers.",
         "assumptions": [
             "A-CLOCK: the process does not outlive a 64-bit nanosecond clock (bounds the retry counter; used for termination of the retry loop)",
             "T: request_certificate / schedule_renewal / call_post_operation_hooks are seen through recording stubs here; their own contracts are proved in their units",
-            "X: liveness under faults inside reqwest/tokio/OpenSSL; hooks have no timeout ('bounded time'); non-interference between certificates (concurrency, C12)",
+            "X: liveness under faults inside reqwest/tokio/OpenSSL; hooks have no timeout, the rate limiter's own waits and the time a single HTTP exchange takes are not bounded here ('bounded time' is claimed for the deliberate waits of the HTTP layer only); non-interference between certificates (concurrency, C12)",
         ],
     },
     "C08": {
@@ -260,16 +264,18 @@ PROPS = {
         ],
     },
     "C09": {
-        "units": ["ratelimit", "http"],
+        "units": ["ratelimit", "http", "evloop", "renew"],
         "design_ref": "DESIGN.md section 5 C09",
         "technique": "Verus function contracts + data-structure invariant with ghost admission history",
         "text": "Deductive proof (Verus/Z3) over the extracted limiter code that the admission history stays "
-                "n-spaced for every configured limit, for all inputs and unboundedly many iterations.",
+                "n-spaced for every configured limit, for all inputs and unboundedly many iterations; that every transmission needs a limiter pass; "
+                "and that every renewal task MainEventLoop::run launches holds the event loop's own endpoint object (a clone of its Arc handle, never a copy of the endpoint), "
+                "which renew_certificate hands back unchanged - so all certificates of an endpoint go through one limiter.",
         "assumptions": [
             "T: Instant::now is monotone (ghost clock); tokio::time::sleep returns after at least the duration",
             "T: std semantics of iter().filter().count(), Vec::retain, sort_by, reverse as stated in the T-ITER helpers",
-            "X: send latency after admission; one limiter shared by all tasks of an endpoint (wiring in MainEventLoop::new); "
-            "termination of the wait loop (liveness)",
+            "T: Arc handles carry the identity of the object they point to (clone: the same object; Arc::new: a new one); FuturesUnordered is a bag of task results (T-ASYNC runs each task to completion)",
+            "X: send latency after admission; termination of the wait loop (liveness); interleavings of the tasks (C12)",
         ],
     },
 }
